@@ -1,6 +1,6 @@
 """C08 — DPoS finality: the irreversible block is monotone, on-chain and never undone.
 spec/consensus/DposLib.tla; binding: TLC behaviours replayed on real nodes running the real DPoS finality code."""
-import concurrent.futures, json, os, random, re
+import concurrent.futures, json, os, random, re, shutil, subprocess, time
 import vlib
 
 LEVEL = "model_checking"
@@ -22,6 +22,12 @@ MANIFEST = dict(
          "boundaries (crash points inside a step: C06)",
     technique="TLA+/TLC exhaustive model + simulation; replay of TLC transitions, simulated behaviours and counterexamples into real nodes")
 SPEC_DIR = os.path.join(vlib.SPEC, "consensus")
+T0 = [0.0]
+
+
+def _t(msg):
+    vlib.log("[c08 %6.1fs] %s" % (time.time() - T0[0], msg))
+
 PKG = "./internal/verifnode/"
 
 # --------------------------------------------------------------------------- TLA+ values -> harness input
@@ -80,10 +86,111 @@ SETS = {"NoByz": [], "Byz3": [3], "Byz2": [2], "Nodes3": [0, 1, 2], "Nodes012": 
         "Nodes01": [0, 1], "Node0": [0], "Nodes0o": [0, 100], "Nodes02": [0, 2]}
 
 
-def behaviours_from_graph(c, cfg, tag, rng, max_paths=None, max_len=None, timeout=900):
-    gen = vlib.tlc(SPEC_DIR, "MC_DposLib", cfg, c.work, workers=1, timeout=timeout)
-    c.require_ok(gen, "DposLib transition enumeration (%s)" % cfg)
-    trs = vlib.parse_transitions(gen.out)
+_VAR_RE = re.compile(r"(?m)^/\\ (\w+) = ")
+
+
+def _state_vars(txt):
+    parts = _VAR_RE.split("\n" + txt.strip())
+    return {parts[i]: parts[i + 1].strip() for i in range(1, len(parts) - 1, 2)}
+
+
+def parse_sim_file(path):
+    txt = open(path).read()
+    states = []
+    for m in re.finditer(r"STATE_\d+ ==\s*\n(.*?)(?=\n\s*\n(?:\\\*[^\n]*\n)?STATE_|\n=+|\Z)", txt, re.S):
+        d = _state_vars(m.group(1))
+        states.append((vlib.parse_value(d["lastAct"]), vlib.parse_value(d["blk"]), vlib.parse_value(d["node"])))
+    return states
+
+
+def behaviour_from_error_trace(res, cfg, tag):
+    params = cfg_params(cfg)
+    states = []
+    for (_, st) in res.error_trace:
+        if "_raw" in st:
+            raise vlib.Infra("unparseable counterexample state of %s: %s" % (cfg, st["_raw"][:500]))
+        states.append((st["lastAct"], st["blk"], st["node"]))
+    return behaviour(tag, tag, params, states)
+
+
+# --------------------------------------------------------------------------- harness
+# (own build/run helpers instead of vlib.go_test_sharded: the test binary is built ONCE per check run, while TLC is
+#  working, and then used for several batches of behaviours)
+
+def build_harness(c):
+    ov = vlib.gen_overlay()
+    bindir = os.path.join(vlib.WORK, "gobin")
+    os.makedirs(bindir, exist_ok=True)
+    exe = os.path.join(bindir, "c08-%d.test" % os.getpid())
+    cmd = ["go", "test", "-c", "-tags", "verif", "-overlay", ov, "-vet=off", "-o", exe, PKG]
+    try:
+        r = subprocess.run(cmd, cwd=vlib.REPO, env=vlib.goenv(), capture_output=True, text=True, timeout=1800)
+    except subprocess.TimeoutExpired:
+        raise vlib.Infra("go test -c timed out")
+    if r.returncode != 0 or not os.path.exists(exe):
+        raise vlib.Infra("harness does not build:\n%s" % (r.stdout + r.stderr)[-4000:])
+    return exe
+
+
+def run_shards(exe, nshards, env_for, timeout):
+    bindir = os.path.dirname(exe)
+
+    def one(i):
+        cwd = os.path.join(bindir, "c08-cwd-%d-%d" % (os.getpid(), i))
+        os.makedirs(cwd, exist_ok=True)
+        e = dict(env_for(i))
+        e["VERIF_SHARD"] = "%d/%d" % (i, nshards)
+        e.setdefault("TMPDIR", cwd)
+        try:
+            p = subprocess.run([exe, "-test.run", "^TestVerifDpos$", "-test.timeout", "%ds" % timeout, "-test.count", "1"],
+                               cwd=cwd, env=vlib.goenv(e), capture_output=True, text=True, timeout=timeout + 60)
+            return p.returncode, p.stdout + p.stderr
+        except subprocess.TimeoutExpired:
+            return 124, "timeout"
+        finally:
+            shutil.rmtree(cwd, ignore_errors=True)
+    with concurrent.futures.ThreadPoolExecutor(max_workers=nshards) as ex:
+        return list(ex.map(one, range(nshards)))
+
+
+def replay(c, exe, behs, tag, nshards=8, timeout=2400):
+    if not behs:
+        return 0, 0
+    inpath = os.path.join(c.work, "dpos_in_%s.json" % tag)
+    json.dump(dict(behaviours=behs), open(inpath, "w"))
+    nshards = max(1, min(nshards, len(behs)))
+    outs = [os.path.join(c.work, "dpos_out_%s_%d.json" % (tag, i)) for i in range(nshards)]
+    rs = run_shards(exe, nshards, lambda i: {"VERIF_IN": inpath, "VERIF_OUT": outs[i], "VERIF_SEED": c.seed, "VERIF_TIER": c.tier}, timeout)
+    nodes = steps = 0
+    nviol = 0
+    for i, (rc, out) in enumerate(rs):
+        if rc != 0 and not os.path.exists(outs[i]):
+            pr = ""
+            if os.path.exists(outs[i] + ".progress"):
+                pr = open(outs[i] + ".progress").read()
+            raise vlib.Infra("dpos harness shard %d died (last progress %s):\n%s" % (
+                i, pr, "\n".join(l for l in out.splitlines() if not l.startswith('{"level'))[-3000:]))
+        r = c.absorb_go(outs[i], out)
+        nviol += len(r.get("violations") or [])
+        nodes += (r.get("extra") or {}).get("nodes_run", 0)
+        steps += (r.get("extra") or {}).get("steps_run", 0)
+        if rc != 0 and not r.get("violations"):
+            raise vlib.Infra("dpos harness shard %d failed:\n%s" % (i, "\n".join(l for l in out.splitlines() if not l.startswith('{"level'))[-3000:]))
+    c.notes.append("%s: %d behaviours replayed, %d node runs, %d node steps, %d violation reports" % (tag, len(behs), nodes, steps, nviol))
+    return nodes, steps
+
+
+def tlc_batch(c, jobs, par=4):
+    """jobs: [(key, cfg, workers, timeout, extra_args)] run concurrently, each in its own scratch dir"""
+    def one(j):
+        key, cfg, workers, timeout, args = j
+        return key, vlib.tlc(SPEC_DIR, "MC_DposLib", cfg, os.path.join(c.work, "tlc_" + key), workers=workers, timeout=timeout, args=args)
+    with concurrent.futures.ThreadPoolExecutor(max_workers=par) as ex:
+        return dict(ex.map(one, jobs))
+
+
+def graph_behaviours(res, cfg, tag, rng, max_paths=None, max_len=None):
+    trs = vlib.parse_transitions(res.out)
     if len(trs) < 50:
         raise vlib.Infra("too few transitions from %s: %d" % (cfg, len(trs)))
     params = cfg_params(cfg)
@@ -105,28 +212,7 @@ def behaviours_from_graph(c, cfg, tag, rng, max_paths=None, max_len=None, timeou
     return behs, len(trs), len(g.states), total
 
 
-_VAR_RE = re.compile(r"(?m)^/\\ (\w+) = ")
-
-
-def _state_vars(txt):
-    parts = _VAR_RE.split("\n" + txt.strip())
-    return {parts[i]: parts[i + 1].strip() for i in range(1, len(parts) - 1, 2)}
-
-
-def parse_sim_file(path):
-    txt = open(path).read()
-    states = []
-    for m in re.finditer(r"STATE_\d+ ==\s*\n(.*?)(?=\n\s*\n(?:\\\*[^\n]*\n)?STATE_|\n=+|\Z)", txt, re.S):
-        d = _state_vars(m.group(1))
-        states.append((vlib.parse_value(d["lastAct"]), vlib.parse_value(d["blk"]), vlib.parse_value(d["node"])))
-    return states
-
-
-def simulate(c, cfg, num, depth, tag, seed):
-    pre = os.path.join(c.work, "sim_" + tag)
-    os.makedirs(pre, exist_ok=True)
-    res = vlib.tlc(SPEC_DIR, "MC_DposLib", cfg, c.work, workers=2, timeout=1200,
-                   args=["-simulate", "file=%s/t,num=%d" % (pre, num), "-depth", str(depth), "-seed", str(seed)])
+def sim_behaviours(c, res, cfg, tag, pre):
     if "Error:" in res.out:
         raise vlib.Infra("simulation %s did not run clean:\n%s" % (cfg, res.out[-3000:]))
     params = cfg_params(cfg)
@@ -135,52 +221,19 @@ def simulate(c, cfg, num, depth, tag, seed):
         b = behaviour("%s-%s" % (tag, fn), tag, params, parse_sim_file(os.path.join(pre, fn)))
         if b:
             behs.append(b)
-    c.configs.append(dict(cfg=cfg, what="simulation (%s): %d behaviours, depth<=%d" % (tag, len(behs), depth), wall_s=round(res.wall, 1)))
+    c.configs.append(dict(cfg=cfg, what="simulation (%s): %d behaviours" % (tag, len(behs)), wall_s=round(res.wall, 1)))
     return behs
 
 
-def behaviour_from_error_trace(res, cfg, tag):
-    params = cfg_params(cfg)
-    states = []
-    for (_, st) in res.error_trace:
-        if "_raw" in st:
-            raise vlib.Infra("unparseable counterexample state of %s: %s" % (cfg, st["_raw"][:500]))
-        states.append((st["lastAct"], st["blk"], st["node"]))
-    return behaviour(tag, tag, params, states)
-
-
-# --------------------------------------------------------------------------- harness
-
-def replay(c, behs, tag, nshards=8, timeout=2400):
-    inpath = os.path.join(c.work, "dpos_in_%s.json" % tag)
-    json.dump(dict(behaviours=behs), open(inpath, "w"))
-    nshards = max(1, min(nshards, len(behs)))
-    outs = [os.path.join(c.work, "dpos_out_%s_%d.json" % (tag, i)) for i in range(nshards)]
-    rs = vlib.go_test_sharded(PKG, "^TestVerifDpos$", nshards,
-                              lambda i: {"VERIF_IN": inpath, "VERIF_OUT": outs[i], "VERIF_SEED": c.seed, "VERIF_TIER": c.tier}, timeout=timeout)
-    nodes = steps = 0
-    for i, (rc, out) in enumerate(rs):
-        if rc != 0 and not os.path.exists(outs[i]):
-            pr = ""
-            if os.path.exists(outs[i] + ".progress"):
-                pr = open(outs[i] + ".progress").read()
-            raise vlib.Infra("dpos harness shard %d died (last progress %s):\n%s" % (
-                i, pr, "\n".join(l for l in out.splitlines() if not l.startswith('{"level'))[-3000:]))
-        r = c.absorb_go(outs[i], out)
-        nodes += (r.get("extra") or {}).get("nodes_run", 0)
-        steps += (r.get("extra") or {}).get("steps_run", 0)
-        if rc != 0 and not r.get("violations"):
-            raise vlib.Infra("dpos harness shard %d failed:\n%s" % (i, "\n".join(l for l in out.splitlines() if not l.startswith('{"level'))[-3000:]))
-    c.notes.append("%s: %d behaviours replayed, %d node runs, %d node steps" % (tag, len(behs), nodes, steps))
-    return nodes, steps
-
-
-import time
-T0 = [0.0]
-
-
-def _t(msg):
-    vlib.log("[c08 %6.1fs] %s" % (time.time() - T0[0], msg))
+# configurations of the code AS IT IS that must fail in the design: (key, cfg, violated property, what)
+ASCODED = [
+    ("lazy", "MC_DposLib_lazy.cfg", "Final", "restart, then a longer branch from below the LIB is adopted (status attached lazily)"),
+    ("lazy2", "MC_DposLib_lazy2.cfg", "NoForkBelowLib", "restart, then a block numbered below the LIB is accepted"),
+    ("stale", "MC_DposLib_stale.cfg", "LibOnMain", "a proposal of the abandoned branch becomes the LIB"),
+    ("lower", "MC_DposLib_lower.cfg", "LibMonotone", "the LIB number decreases after a one-block reorganisation at the tip"),
+    ("byzq", "MC_DposLib_byzq.cfg", "LibQuorum", "one Byzantine producer makes its own block irreversible (free Confirms)"),
+    ("byza", "MC_DposLib_byza.cfg", "Agreement", "two nodes hold conflicting irreversible blocks, 1 of 4 producers Byzantine"),
+]
 
 
 def run(c):
@@ -191,8 +244,81 @@ def run(c):
               "property evaluated on the real node) or one pairwise LIB comparison between two nodes; distinct = distinct (behaviour, node, step)")
     c.assumptions = ["blocks reach a node parents first", "all blocks valid and empty; BP set = genesis BP list",
                      "restarts at step boundaries on the in-memory journaling store", "TLC 1.8.0"]
-    behs, ntr, nst, total = behaviours_from_graph(c, "Gen_DposLib.cfg", "gen", rng, max_paths=40)
-    c.notes.append("Gen_DposLib: %d transitions, %d states, %d covering paths, %d used" % (ntr, nst, total, len(behs)))
-    _t("generated")
-    replay(c, behs, "gen")
-    _t("replayed")
+    simdir = {k: os.path.join(c.work, "sim_" + k) for k in ("s3", "s4")}
+    for d in simdir.values():
+        os.makedirs(d, exist_ok=True)
+    nsim, dsim = (40, 45) if quick else (300, 60)
+    GENS = [("gen3", "Gen_DposLib.cfg", "gen-T3"), ("gen4", "Gen_DposLib_T4.cfg", "gen-T4"),
+            ("gen4e", "Gen_DposLib_T4e.cfg", "gen-T4e"), ("gen3w", "Gen_DposLib_T3w.cfg", "gen-T3w")]
+    CLEAN = [
+        ("mc", "MC_DposLib.cfg" if quick else "MC_DposLib_big.cfg", "full protocol, 3 correct producers (= nodes), every interleaving of production, delivery and one restart, %s: all properties" % ("3 blocks" if quick else "4 blocks")),
+        ("t3", "MC_DposLib_T3.cfg", "tree T3, two observers, every delivery order: all properties"),
+        ("t3r", "MC_DposLib_T3r.cfg", "tree T3, one observer, 2 restarts: LibOnMain, Agreement, LibMonotone, LibQuorum, RestoreEqualsRecompute"),
+        ("t4", "MC_DposLib_T4.cfg", "tree T4 (a producer cut off builds alone from genesis), no restart: the veto holds, all properties"),
+        ("t4e", "MC_DposLib_T4e.cfg", "tree T4e (fork exactly at the LIB block): all properties"),
+        ("t3w", "MC_DposLib_T3w.cfg", "tree T3w (chain longer than the rebuild window, fork at the tip), 1 restart: LibOnMain, Agreement, LibQuorum, RestoreEqualsRecompute"),
+    ]
+    if not quick:
+        CLEAN += [("fix4", "MC_DposLib_fix_T4.cfg", "REPAIRED design (attach+stale+mono), tree T4, 2 restarts: all properties"),
+                  ("fix4s", "MC_DposLib_fix_T4s.cfg", "REPAIRED design, tree T4s, 1 restart: all properties"),
+                  ("fix3w", "MC_DposLib_fix_T3w.cfg", "REPAIRED design, tree T3w, 1 restart: all properties"),
+                  ("fix3", "MC_DposLib_fix_T3.cfg", "REPAIRED design, tree T3, two observers, 1 restart: all properties")]
+    jobs = [(k, cfg, 3 if k == "mc" else 1, 1700, None) for (k, cfg, _) in CLEAN]
+    jobs += [(k, cfg, 1, 900, None) for (k, cfg, _) in GENS]
+    jobs += [
+        ("s3", "Sim_DposLib.cfg", 1, 900, ["-simulate", "file=%s/t,num=%d" % (simdir["s3"], nsim), "-depth", str(dsim), "-seed", str(c.seed * 7919 + 3)]),
+        ("s4", "Sim_DposLib4.cfg", 1, 900, ["-simulate", "file=%s/t,num=%d" % (simdir["s4"], nsim), "-depth", str(dsim + 10), "-seed", str(c.seed * 7919 + 4)]),
+    ] + [(k, cfg, 1, 600, None) for (k, cfg, _, _) in ASCODED]
+    if not quick:
+        jobs.append(("genfull", "Gen_DposLib_full.cfg", 1, 1500, None))
+        jobs.append(("simfix", "Sim_DposLib_fix.cfg", 2, 900, ["-simulate", "num=15000", "-depth", "70", "-seed", str(c.seed * 7919 + 5)]))
+    with concurrent.futures.ThreadPoolExecutor(max_workers=2) as ex:
+        fb = ex.submit(build_harness, c)
+        ft = ex.submit(tlc_batch, c, jobs, 5)
+        R = ft.result()
+        exe = fb.result()
+    _t("TLC and build done: " + " ".join("%s=%.0fs/%d" % (k, r.wall, r.distinct) for k, r in R.items()))
+    try:
+        for (k, cfg, what) in CLEAN:
+            c.require_ok(R[k], what)
+        if not quick:
+            r = R["simfix"]
+            c.add_tlc(r, "REPAIRED design, simulation: 4 producers, 1 equivocating, 3 correct nodes, 2 restarts: all properties")
+            if "Error:" in r.out:
+                raise vlib.Infra("simulation of the repaired design found an error:\n" + r.out[-3000:])
+        scen = []
+        for (k, cfg, prop, what) in ASCODED:
+            r = R[k]
+            c.add_tlc(r, "code AS IT IS, expected counterexample to %s: %s" % (prop, what))
+            if r.violation != prop or not r.error_trace:
+                raise vlib.Infra("the as-coded configuration %s was expected to violate %s, TLC says: %s\n%s" % (cfg, prop, r.violation, r.out[-2000:]))
+            scen.append(behaviour_from_error_trace(r, cfg, "ascoded-" + k))
+        c.notes.append("as-coded configurations: TLC counterexamples to %s replayed on the real code" % ", ".join("%s (%s)" % (p, k) for (k, _, p, _) in ASCODED))
+        gen = []
+        for (k, cfg, tag) in GENS:
+            c.require_ok(R[k], "transition enumeration " + cfg)
+            gb, ntr, nst, tot = graph_behaviours(R[k], cfg, tag, rng)
+            c.notes.append("%s: %d transitions, %d states, %d covering behaviours (all replayed)" % (cfg, ntr, nst, tot))
+            gen += gb
+        g3, g4 = gen, []
+        s3 = sim_behaviours(c, R["s3"], "Sim_DposLib.cfg", "sim3", simdir["s3"])
+        s4 = sim_behaviours(c, R["s4"], "Sim_DposLib4.cfg", "sim4", simdir["s4"])
+        gf = []
+        if not quick:
+            c.require_ok(R["genfull"], "transition enumeration: full protocol, 3 nodes, 3 blocks, 1 restart")
+            gf, ntrf, nstf, totf = graph_behaviours(R["genfull"], "Gen_DposLib_full.cfg", "gen-full", rng, max_paths=1500)
+            c.notes.append("Gen_DposLib_full: %d transitions, %d states, %d covering behaviours, %d replayed" % (ntrf, nstf, totf, len(gf)))
+        _t("behaviours: %d scenario, %d+%d edge cover, %d+%d simulated, %d full-protocol edge cover" % (len(scen), len(g3), len(g4), len(s3), len(s4), len(gf)))
+        replay(c, exe, scen, "ascoded", nshards=len(scen))
+        _t("as-coded scenarios replayed")
+        replay(c, exe, g3 + g4 + s3 + s4 + gf, "main", nshards=8)
+        _t("replayed")
+        c.exhaustive = True
+        c.extra["exhaustive_note"] = ("exhaustive over the delivery orders and restart points of the scripted trees T3, T4, T4e, T3w (every transition of "
+                                      "their state graphs is replayed on a real node) and, in the model, over the full protocol with 3 producers and 3 (quick) / 4 "
+                                      "(thorough) blocks; deeper behaviours of the full protocol (simulation, 3-4 producers, <= 16 blocks) are sampled")
+    finally:
+        try:
+            os.remove(exe)
+        except OSError:
+            pass
